@@ -12,6 +12,7 @@ import (
 	"github.com/jsightapi/jsight-schema-core/kit"
 	"github.com/jsightapi/jsight-schema-core/notations/jschema"
 	"github.com/jsightapi/jsight-schema-core/notations/jschema/ischema"
+	"github.com/jsightapi/jsight-schema-core/notations/jschema/ischema/constraint"
 	"github.com/jsightapi/jsight-schema-core/notations/regex"
 	"github.com/jsightapi/jsight-schema-core/openapi"
 	"github.com/jsightapi/jsight-schema-core/rules/enum"
@@ -272,6 +273,15 @@ func init() {
 		case "ast":
 			r, _ := opAST(s)
 			return r
+		case "astlate":
+			// GetAST() asked for the first time after every other operation: it reports the source, whatever was asked before
+			_ = opCheck(s)
+			_, _ = opExample(s)
+			_, _ = opOpenAPI(s)
+			_, _ = opOpenAPI(s)
+			_, _ = opUsed(s)
+			r, _ := opAST(s)
+			return r
 		case "used":
 			r, _ := opUsed(s)
 			return r
@@ -509,7 +519,66 @@ func init() {
 			}
 			return s
 		}
-		return "check=ok keys=" + dash(strings.Join(inh, ",")) + " ex=" + dash(exk) + " info=" + dash(info) + " deep=" + dash(deep)
+		// every object of the compiled schema and of the compiled types: its required keys are its own mandatory members -
+		// no more (a key it has no member for), no less
+		reqbad := guard(func() string {
+			bad := ""
+			var walk func(where string, n ischema.Node)
+			walk = func(where string, n ischema.Node) {
+				switch x := n.(type) {
+				case *ischema.ObjectNode:
+					want := map[string]bool{}
+					for idx, ch := range x.Children() {
+						k := x.Key(idx)
+						if !k.IsShortcut && !ischema.IsOptionalNode(ch) {
+							want[k.Key] = true
+						}
+						walk(where+"/"+k.Key, ch)
+					}
+					got := map[string]bool{}
+					if c := x.Constraint(constraint.RequiredKeysConstraintType); c != nil {
+						if rk, ok := c.(*constraint.RequiredKeys); ok {
+							for _, k := range rk.Keys() {
+								got[k] = true
+							}
+						}
+					}
+					for k := range got {
+						if !want[k] && (bad == "" || where+":+"+k < bad) {
+							bad = where + ":+" + k
+						}
+					}
+					for k := range want {
+						if !got[k] && (bad == "" || where+":-"+k < bad) {
+							bad = where + ":-" + k
+						}
+					}
+				case *ischema.ArrayNode:
+					for _, ch := range x.Children() {
+						walk(where+"/[]", ch)
+					}
+				}
+			}
+			if s.Inner.RootNode() != nil {
+				walk("root", s.Inner.RootNode())
+			}
+			var names []string
+			for nm := range s.Inner.TypesList() {
+				names = append(names, nm)
+			}
+			sort.Strings(names)
+			for _, nm := range names {
+				if t := s.Inner.TypesList()[nm]; t.Schema != nil && t.Schema.RootNode() != nil && !strings.HasPrefix(nm, "#") {
+					walk(nm, t.Schema.RootNode())
+				}
+			}
+			return bad
+		})
+		out := "check=ok keys=" + dash(strings.Join(inh, ",")) + " ex=" + dash(exk) + " info=" + dash(info) + " deep=" + dash(deep)
+		if reqbad != "" {
+			out += " reqbad=" + strings.ReplaceAll(reqbad, " ", "_")
+		}
+		return out
 	}
 }
 
